@@ -655,6 +655,8 @@ func main() {
 		os.Exit(determinism(os.Args[2:]))
 	case "passthrough":
 		os.Exit(passthrough())
+	case "conformance":
+		os.Exit(conformance())
 	default:
 		die(2, "unknown command %q", os.Args[1])
 	}
